@@ -133,10 +133,67 @@ def relayout(routine_ops, rnd: random.Random):
 
 
 # ------------------------------------------------------------------------------------------- workloads
+def handbuilt_specs():
+    """Hand-written routine sets in layouts no compiler produces (both arms of an if ending in a jump, a call that falls through
+    into a loop head, tails shared between ifs). All of them decompile correctly on the unchanged tree."""
+    I = lambda x: ("int", x)
+    V = ("const", "$V")
+
+    def rs(*routines):
+        return {"routines": [{"kind": "GENERIC", "target": None, "name": None, "ops": list(r)} for r in routines]}
+
+    out = []
+    # an endless loop whose last op is a call into another routine and which falls through into the loop head
+    out.append(("loop_ends_in_foreign_call", rs(
+        [(0, "op_Z", [I(0)]), (1, "Jump", [I(4)]), (2, "op_A", [I(1)]), (3, "Call", [I(7)]), (4, "op_B", [I(2)]), (5, "Jump", [I(2)])],
+        [(6, "op_X", [I(1)]), (7, "op_S", [I(9)]), (8, "Return", [])])))
+    # the else branch of an if starts at the tail block that both arms of another if jump into
+    out.append(("else_starts_at_another_ifs_join", rs(
+        [(0, "Branch", [V, I(1), I(11)]), (1, "op_W", [I(0)]), (2, "Branch", [V, I(2), I(6)]), (3, "op_B", [I(2)]), (4, "op_B2", [I(2)]), (5, "Jump", [I(9)]),
+         (6, "op_A", [I(1)]), (7, "op_A2", [I(1)]), (8, "Jump", [I(9)]), (9, "op_E", [I(5)]), (10, "End", []),
+         (11, "Branch", [V, I(3), I(14)]), (12, "op_Q", [I(3)]), (13, "Jump", [I(3)]), (14, "op_P", [I(4)]), (15, "Jump", [I(3)])])))
+    # both arms of an inner if end in a jump to their join, a sibling arm of the enclosing if ends in a jump of its own
+    for n_else, n_if in ((4, 1), (2, 2), (1, 3)):
+        ops = [(0, "Branch", [V, I(1), None]), (1, "Branch", [V, I(2), None])]
+        n = 2
+        for k in range(n_else):
+            ops.append((n, f"e{k}", [])); n += 1
+        j1 = n; ops.append([n, "Jump", [None]]); n += 1
+        t = n
+        for k in range(n_if):
+            ops.append((n, f"i{k}", [])); n += 1
+        j2 = n; ops.append([n, "Jump", [None]]); n += 1
+        join = n; ops.append((n, "End", [])); n += 1
+        p = n
+        for k in range(4):
+            ops.append((n, f"q{k}", [])); n += 1
+        j3 = n; ops.append([n, "Jump", [None]]); n += 1
+        ops.append((n, "m", [])); n += 1
+        ops.append((n, "End", [])); n += 1
+        kk = n; ops.append((n, "k", [])); n += 1
+        ops.append((n, "End", [])); n += 1
+        fix = {0: p, 1: t}
+        res = []
+        for o in ops:
+            off, name, ps = o
+            if name == "Branch":
+                ps = [ps[0], ps[1], I(fix[off])]
+            elif name == "Jump":
+                ps = [I(join if off in (j1, j2) else kk)]
+            res.append((off, name, ps))
+        out.append((f"both_arms_jump_to_join_{n_else}_{n_if}", rs(res)))
+    return out
+
+
 def ssb_workload(shard):
-    """yields (name, infos, ops, named, meta). kinds: compiled / flat / relaid / cfg / special"""
+    """yields (name, infos, ops, named, meta). kinds: compiled / flat / relaid / cfg / special / handbuilt"""
     rnd = random.Random(shard["seed"])
     kind = shard["kind"]
+    if kind == "handbuilt":
+        for name, spec in handbuilt_specs():
+            infos, ops, named = norm.make_ops(spec)
+            yield name, infos, ops, named, {"spec": spec, "kind": kind}
+        return
     if kind in ("compiled", "relaid", "flat", "catalogue"):
         src = {"compiled": "random", "relaid": "random", "flat": "flat", "catalogue": "catalogue"}[kind]
         sh = dict(shard, kind=src)
